@@ -401,6 +401,11 @@ def gen_pair(rng, quirks=False, force=None):
         n_top = rng.choice([0, 1, 1, 2])
         for _ in range(n_top):
             nm = pfx + pool.pop()
+            if side == "src" and rng.random() < 0.3:
+                # an embedded struct whose TYPE NAME is unexported (`*sBase`): its exported fields are promoted all the same
+                # (source side only: the generated code lives in package src and could not name dest.dBase)
+                nm = nm[0].lower() + nm[1:]
+                feats.add("embed1:src:unexported_type")
             fl = []
             node = {"name": nm, "fields": fl, "ptr": rng.random() < 0.5, "children": []}
             if rng.random() < 0.5:
@@ -1325,8 +1330,11 @@ def corpus():
         [_job("T", "T")], alias="dm"))
     # 8./9. -way
     for way in ("toonly", "fromonly"):
-        res.append(_spec([st("T", [_f("A", B("int")), _f("B", B("string"))])],
-                         [st("T", [_f("A", B("int64")), _f("B", B("string"))])], [_job("T", "T")], way=way))
+        # (with an embedded pointer on both sides: the read guards / allocations of the ONE generated direction)
+        res.append(_spec([st("SE", [_f("A", B("int")), _f("C", B("string"))]),
+                          st("T", [_f("SE", P(N("src", "SE")), emb=True), _f("B", B("string"))])],
+                         [st("DE", [_f("A", B("int64")), _f("C", B("string"))]),
+                          st("T", [_f("DE", P(N("dst", "DE")), emb=True), _f("B", B("string"))])], [_job("T", "T")], way=way))
     # 10. tags: Pascal-casing of the tag, tag on one of two candidates; named scalars of dest/common
     res.append(_spec(
         [st("T", [_f("Alpha", B("string"), "user_name"), _f("Beta", B("int"), "code"), _f("Lv", N("common", "Level")),
@@ -1416,6 +1424,28 @@ def corpus():
                   _f("ID", B("int"))])],
         [st("T", [_f("X", B("int64")), _f("Y", B("string")), _f("ID", B("int"))])],
         [_job("T", "T")]))
+    # 21./22. a pair mapped ONLY in the FromX direction whose destination field is promoted through an embedded POINTER: the read
+    #     guard of FromX (nilCheckRead's destination half) must not depend on the ToX direction.  21: ToX is taken by a manual
+    #     toX assigning the field (`d.Count += 0`: assigned, value unchanged); 22: only a dest->src mapper method exists
+    head = st("Head", [_f("Count", B("int")), _f("Lang", B("string"))])
+    res.append(_spec(
+        [st("T", [_f("ID", B("int")), _f("Count", B("int")), _f("Lang", B("string"))])],
+        [head, st("T", [_f("ID", B("int")), _f("Head", P(N("dst", "Head")), emb=True)])],
+        [{"src": "T", "dst": "T", "manual_to": [("Count", "int", 0)], "manual_from": None}]))
+    # 23. an embedded POINTER to a struct whose type name is unexported (`*meta`): guards and allocation as for exported ones
+    res.append(_spec(
+        [st("meta", [_f("Title", B("string")), _f("N", B("int"))]),
+         st("T", [_f("meta", P(N("src", "meta")), emb=True), _f("ID", B("int"))])],
+        [st("T", [_f("Title", B("string")), _f("N", B("int64")), _f("ID", B("int"))])],
+        [_job("T", "T")]))
+    res.append(_spec(
+        [st("Mapper", []), st("T", [_f("Mapper", N("src", "Mapper"), emb=True), _f("ID", B("int")), _f("Amt", B("string")),
+                                    _f("Lang", B("string"))])],
+        [st("Head", [_f("Amt", B("int8")), _f("Lang", B("string"))]),
+         st("T", [_f("ID", B("int")), _f("Head", P(N("dst", "Head")), emb=True)])],
+        [_job("T", "T")],
+        [{"name": "I8ToStr", "param": B("int8"), "result": B("string"), "kind": ["parity", "#y"]}],
+        {"name": "Mapper", "pkg": "src"}))
     return res
 
 
